@@ -724,7 +724,13 @@ func destinations(s typ) []typ {
 }
 
 func TestRandomChains(t *testing.T) {
-	rec.Check(t, rec.Scale(2500, 60000), func(t *rapid.T) {
+	if !rec.ReplayOnly() {
+		getInterp() // outside rapid's iteration timing
+		for _, s := range allTypes {
+			destinations(s)
+		}
+	}
+	rec.Check(t, rec.Scale(2500, 20000), func(t *rapid.T) {
 		ip := getInterp()
 		s := allTypes[rapid.IntRange(0, len(allTypes)-1).Draw(t, "src")]
 		n := rapid.IntRange(1, 3).Draw(t, "chainlen")
